@@ -18,7 +18,7 @@ CACHE = os.path.join(VERIF, ".cache")
 MIRFACTS = os.path.join(VERIF, "engines/mirfacts/target/release/mirfacts")
 SPECSCAN_DIR = os.path.join(VERIF, "engines/specscan")
 SPECSCAN = os.path.join(SPECSCAN_DIR, "target/release/specscan")
-ENGINE_VERSION = "4"
+ENGINE_VERSION = "5"
 
 SRC_FILES = [
     "a2ml.rs", "checker.rs", "cleanup.rs", "ifdata.rs", "itemlist.rs", "lib.rs", "loader.rs",
